@@ -14,7 +14,12 @@
    CStake   transfer(self, amount) of the staking precompile: validators (rank of the operator string, tokens,
             bonded) and the caller's delegations in store order; observed: operator and amount of the delegation made.
    CFloor   an otherwise valid transaction with a price at / around the floor: base fee, global minimum, price fields;
-            observed: whether the deliver-mode ante handler let it pass (on every replica, whatever its node minimum). *)
+            observed: whether the deliver-mode ante handler let it pass (on every replica, whatever its node minimum).
+   CApply   an Ethereum transaction (call, transfer or creation) of a fresh account whose balance right before the state
+            transition is known exactly (funded with fee + base; the fee is read back from the transaction's events):
+            balance, value; observed: the result code (0 executed, 1 = ApplyTransaction's wrapped error) and that the
+            codespace is the one of an unregistered error — on every replica and in the node-configuration process
+            (telemetry on), whose outputs the driver compares. *)
 From Evm Require Import Destroy Nondet CorrBase.
 From Evm Require BaseFee.
 Open Scope Z_scope.
@@ -40,10 +45,10 @@ Definition nd_world (l : list nd_entry) (next : Z) : world :=
 (* ---- three ambient environments that differ in everything *)
 Definition rot (l : list Z) : list Z := match l with [] => [] | x :: r => r ++ [x] end.
 
-Definition env_a : nenv := mkNenv 0 (fun _ _ _ l => l) 0 TrNone 1.
-Definition env_b : nenv := mkNenv 4102444800 (fun _ _ _ l => rev l) (10 ^ 30) TrAccessList 16.
+Definition env_a : nenv := mkNenv 0 (fun _ _ _ l => l) 0 TrNone 1 false 0.
+Definition env_b : nenv := mkNenv 4102444800 (fun _ _ _ l => rev l) (10 ^ 30) TrAccessList 16 true 5.
 Definition env_c : nenv :=
-  mkNenv 1700000000 (fun i k j l => if Z.even (i + k + j) then rot l else rev (rot l)) (7 * 10 ^ 18) TrStruct 4.
+  mkNenv 1700000000 (fun i k j l => if Z.even (i + k + j) then rot l else rev (rot l)) (7 * 10 ^ 18) TrStruct 4 true 4.
 Definition envs : list nenv := [env_a; env_b; env_c].
 
 Inductive ccase :=
@@ -52,7 +57,8 @@ Inductive ccase :=
           (obs_ok : bool) (obs_burns : list (addr * coins)) (obs_exists : list (addr * bool))
 | CStake (vals : list validator) (dels : list (addr * Z * Z)) (caller : addr) (amount : Z)
          (obs : option (Z * Z))
-| CFloor (base gmin : Z) (dyn : bool) (price tip cap : Z) (obs_admitted : bool).
+| CFloor (base gmin : Z) (dyn : bool) (price tip cap : Z) (obs_admitted : bool)
+| CApply (bal value : Z) (create : bool) (obs_code : Z) (obs_unregistered : bool).
 
 Definition coins_eqb (ds : list denom) (a b : coins) : bool := forallb (fun d => amt a d =? amt b d) ds.
 
@@ -71,7 +77,7 @@ Definition has_acc (w : world) (a : addr) : bool := match w_acc w a with Some _ 
 Definition synth_ops (touched sd : list addr) : list op :=
   map (fun a => AddBalance a 0) touched ++ map Suicide sd ++ [Snapshot; AddBalance (-1) 0; RevertTo 0].
 
-Definition plain_tx (create : bool) (stake : option Z) : txd := mkTxd 0 create false 1 0 0 100000 0 stake.
+Definition plain_tx (create : bool) (stake : option Z) : txd := mkTxd 0 create false 1 0 0 100000 0 0 stake.
 
 Definition commit_ok_in (e : nenv) (bt : Z) (blocked : list addr) (ents : list nd_entry) (next : Z)
     (touched sd : list addr) (ds : list denom) (create obs_ok : bool)
@@ -89,7 +95,7 @@ Definition stake_ok_in (e : nenv) (vals : list validator) (dels : list (addr * Z
   let w := nd_world [(caller, Some (mkAcc Base 0 0), [(evm_denom, Z.max amount 0)], 0, [])] 1 in
   let s := mkC w (fun _ => false) 0 0 vals dels in
   let interp := fun (_ : header) (_ : world) (_ : txd) => ([] : list op, 0, 0, false) in
-  let t := mkTxd caller false false 1 0 0 100000 0 (Some amount) in
+  let t := mkTxd caller false false 1 0 0 100000 0 0 (Some amount) in
   let '(_, r) := exec_tx interp impl_head e (mkHeader 1 0) 0 s t in
   match obs, r_events r with
   | Some (op, a), [EvDelegate d o a'] => (d =? caller) && (o =? op) && (a =? a')
@@ -100,9 +106,17 @@ Definition stake_ok_in (e : nenv) (vals : list validator) (dels : list (addr * Z
 Definition floor_ok_in (e : nenv) (base gmin : Z) (dyn : bool) (price tip cap : Z) (obs_admitted : bool) : bool :=
   let s := mkC (nd_world [] 1) (fun _ => false) base gmin [] [] in
   let interp := fun (_ : header) (_ : world) (_ : txd) => ([] : list op, 0, 0, false) in
-  let t := mkTxd 0 false dyn price tip cap 100000 0 None in
+  let t := mkTxd 0 false dyn price tip cap 100000 0 0 None in
   let '(_, r) := exec_tx interp impl_head e (mkHeader 1 0) 0 s t in
   Bool.eqb (negb (r_code r =? CODE_INSUFFICIENT_FEE)) obs_admitted.
+
+Definition apply_ok_in (e : nenv) (bal value : Z) (create : bool) (obs_code : Z) (obs_unregistered : bool) : bool :=
+  let w := nd_world [(5, Some (mkAcc Base 0 5), [(evm_denom, bal)], 0, [])] 50 in
+  let s := mkC w (fun _ => false) 0 0 [] [] in
+  let interp := fun (_ : header) (_ : world) (_ : txd) => ([] : list op, 0, 0, false) in
+  let t := mkTxd 5 create false 1 0 0 100000 0 value None in
+  let '(_, r) := exec_tx interp impl_head e (mkHeader 1 0) 0 s t in
+  obs_unregistered && (r_code r =? obs_code).
 
 Definition nd_ok (c : ccase) : bool :=
   match c with
@@ -112,6 +126,8 @@ Definition nd_ok (c : ccase) : bool :=
       forallb (fun e => stake_ok_in e vals dels caller amount obs) envs
   | CFloor base gmin dyn price tip cap adm =>
       forallb (fun e => floor_ok_in e base gmin dyn price tip cap adm) envs
+  | CApply bal value create code unreg =>
+      forallb (fun e => apply_ok_in e bal value create code unreg) envs
   end.
 
 Definition nd_mismatches (off : nat) (l : list ccase) : list nat := mism nd_ok off l.
